@@ -56,6 +56,31 @@
 (*                                   mismatch is noticed when the shorter  *)
 (*                                   of the two runs out, after the        *)
 (*                                   leading setters have been called      *)
+(* BoundaryGuard "none"              the code: set_boundary stores the     *)
+(*                                   boundaries it is given, whatever the  *)
+(*                                   mode of the parameter at that moment  *)
+(*               "positive_in_log"   expected-counterexample variant:      *)
+(*                                   boundaries with a zero / negative     *)
+(*                                   edge are dropped while the parameter  *)
+(*                                   is in log mode (the set-up then       *)
+(*                                   depends on the ORDER of set_boundary  *)
+(*                                   and set_mode)                         *)
+(* UpdateArg     "kept"              the code: update_model reads the      *)
+(*                                   vector it is handed                   *)
+(*               "transformed"       expected-counterexample variant: the  *)
+(*                                   prior transform is written into the   *)
+(*                                   caller's array (a second write of the *)
+(*                                   same array sets 10^(10^x))            *)
+(* TrackArg      keep the caller's array of the last update_model call in  *)
+(*               the state (arg) and allow UpdateSame = update_model with  *)
+(*               that same array object again                              *)
+(* Linear numbers.  A boundary may be zero or negative (legal for a        *)
+(* parameter fitted in linear space).  A linear-space number is carried as *)
+(* a code whose integer order is the order of the numbers:                 *)
+(*    e (|e| <= 100) is 10^e,  Zero = -1000 is 0,  Neg(e) = -2000 - e is   *)
+(*    -10^e;  log10 of a code is defined iff the code is Positive.         *)
+(* compile_params is only defined (CompileDefined) when no fitted          *)
+(* parameter with a log-space prior has a zero / negative boundary.        *)
 (* A mode argument is a pair (m, cs): the mode m in lower case and the set *)
 (* cs of letter positions the caller writes in upper case ("log", {1,2,3}  *)
 (* is "LOG"); the harness applies the mask at the boundary.                *)
@@ -70,7 +95,8 @@ EXTENDS Integers, Sequences, FiniteSets, TLC, Json
 
 CONSTANTS Params,        \* sequence of fitting-parameter names, declaration order (model, then observation)
           Derived,       \* sequence of derived-parameter names, declaration order
-          InitSetting,   \* [p -> [fit, mode, lo, hi, raw]]  (raw: the stored spelling is not the lower-case one)
+          InitSetting,   \* [p -> [fit, mode, lo, hi, raw, slo, shi]]  (raw: the stored spelling is not the lower-case one;
+                         \*  lo, hi: the boundaries the caller named last; slo, shi: the boundaries the object holds)
           InitDerived,   \* [d -> BOOLEAN]
           InitValue,     \* [p -> exponent]
           CallParams,    \* the fitting parameters that the generated calls name (subset of Params)
@@ -83,11 +109,14 @@ CONSTANTS Params,        \* sequence of fitting-parameter names, declaration ord
           ObsParams,     \* the fitting parameters that belong to the observation (declared after the model's)
           ModeCalls,     \* set of <<m, cs>>: mode m written with the letters at positions cs in upper case
           InvalidModes,  \* strings that are neither mode in any spelling (set_mode must refuse them)
-          PriorTable, ViewSpace, DerivedLookup, ObsMerge, ModeStore, UpdateGuard,
+          PriorTable, ViewSpace, DerivedLookup, ObsMerge, ModeStore, UpdateGuard, BoundaryGuard, UpdateArg,
+          TrackArg,      \* keep the caller's array of the last update_model in the state (arg)
           Record         \* keep the history variable (binding C) or not (exhaustive runs)
 
-VARIABLES setting, derivedOn, userPrior, priorTab, compiled, compiledDer, value, err, hist
-vars == <<setting, derivedOn, userPrior, priorTab, compiled, compiledDer, value, err, hist>>
+VARIABLES setting, derivedOn, userPrior, priorTab, compiled, compiledDer, value, err, hist,
+          arg            \* the array handed to the last update_model, as the caller sees it now: sequence of
+                         \* [sp0, sp, e]: the caller wrote the number (sp0, e); the array now holds (sp, e)
+vars == <<setting, derivedOn, userPrior, priorTab, compiled, compiledDer, value, err, hist, arg>>
 
 PSet == {Params[i] : i \in 1..Len(Params)}
 DSet == {Derived[i] : i \in 1..Len(Derived)}
@@ -97,6 +126,10 @@ PMode(pr) == IF pr.kind \in LogKinds THEN "log" ELSE "linear"
 IMin(a, b) == IF a <= b THEN a ELSE b
 IMax(a, b) == IF a <= b THEN b ELSE a
 PosOf(p) == CHOOSE i \in 1..Len(Params) : Params[i] = p
+\* codes of linear-space numbers that are not positive (the integer order of codes is the order of the numbers)
+Zero == -1000
+Neg(e) == -2000 - e
+Positive(c) == c > Zero
 
 \* ---------------------------------------------------------------- compile
 \* compile_params(): default prior of a parameter from its mode and bounds
@@ -115,14 +148,21 @@ DerivedFrom(don) == SelectSeq(Derived, LAMBDA d : don[d])
 \* what the current settings alone imply (the mode is the mode the caller named, however it was spelled)
 ViewCompiled(s, up) == CompiledFrom(TableFrom(up, s), s)
 \* the settings as compile_params reads them: a spelling stored raw is not "log", hence linear
-AsStored(s) == [p \in PSet |-> [s[p] EXCEPT !.mode = IF s[p].raw THEN "linear" ELSE s[p].mode]]
+\* and the boundaries it holds
+AsStored(s) == [p \in PSet |-> [s[p] EXCEPT !.mode = IF s[p].raw THEN "linear" ELSE s[p].mode,
+                                             !.lo = s[p].slo, !.hi = s[p].shi]]
+\* compile_params is defined: no fitted parameter with a log-space prior (its own, or the default of log mode)
+\* has a boundary that is zero or negative (log10 of it does not exist)
+EffPrior(s, base, p) == IF base[p] # None THEN base[p] ELSE DefaultPrior(s, p)
+DefinedFor(s, base) == \A p \in PSet : (s[p].fit /\ PMode(EffPrior(s, base, p)) = "log")
+                                          => Positive(IMin(s[p].lo, s[p].hi))
 WordLen(m) == IF m = "log" THEN 3 ELSE 6
 LowerCase(m, cs) == cs \cap (1..WordLen(m)) = {}
 
 \* ------------------------------------------------------------- projection
 \* space in which fit_values / fit_boundaries report entry c of the snapshot
 ViewSp(c) == IF ViewSpace = "prior_mode" THEN PMode(c.prior) ELSE c.mode
-Proj(cmp, cder, val, e) ==
+Proj(cmp, cder, val, e, ar) ==
     [fit |-> [i \in 1..Len(cmp) |->
                  [n   |-> cmp[i].name,
                   nsp |-> PMode(cmp[i].prior),            \* fit_names: "log_" prefix iff the prior is a log prior
@@ -130,37 +170,42 @@ Proj(cmp, cder, val, e) ==
                   bsp |-> ViewSp(cmp[i]), lo |-> IMin(cmp[i].lo, cmp[i].hi), hi |-> IMax(cmp[i].lo, cmp[i].hi),
                   pk  |-> cmp[i].prior.kind, psp |-> PMode(cmp[i].prior),
                   pa  |-> cmp[i].prior.a, pb |-> cmp[i].prior.b]],
-     der |-> cder, val |-> val, err |-> e]
+     der |-> cder, val |-> val, err |-> e, arg |-> ar]
 
-Log(ev) == hist' = IF Record THEN Append(hist, ev @@ [post |-> Proj(compiled', compiledDer', value', err')]) ELSE hist
+Log(ev) == hist' = IF Record THEN Append(hist, ev @@ [post |-> Proj(compiled', compiledDer', value', err', arg')]) ELSE hist
 
 \* ------------------------------------------------------------------ actions
 Init == /\ setting = InitSetting /\ derivedOn = InitDerived
         /\ userPrior = [p \in PSet |-> None] /\ priorTab = [p \in PSet |-> None]
         /\ compiled = <<>> /\ compiledDer = <<>>
-        /\ value = InitValue /\ err = FALSE /\ hist = <<>>
+        /\ value = InitValue /\ err = FALSE /\ hist = <<>> /\ arg = <<>>
 
 SetSetting(p, f, ev) ==
         /\ err' = FALSE
         /\ setting' = [setting EXCEPT ![p] = f]
-        /\ UNCHANGED <<derivedOn, userPrior, priorTab, compiled, compiledDer, value>>
+        /\ UNCHANGED <<derivedOn, userPrior, priorTab, compiled, compiledDer, value, arg>>
         /\ Log(ev)
 
 EnableFit(p)  == SetSetting(p, [setting[p] EXCEPT !.fit = TRUE],  [op |-> "enable_fit", p |-> p])
 DisableFit(p) == SetSetting(p, [setting[p] EXCEPT !.fit = FALSE], [op |-> "disable_fit", p |-> p])
 SetMode(p, m, cs) == SetSetting(p, [setting[p] EXCEPT !.mode = m, !.raw = (ModeStore = "raw" /\ ~LowerCase(m, cs))],
                                 [op |-> "set_mode", p |-> p, m |-> m, cs |-> cs])
-SetBoundary(p, b) == SetSetting(p, [setting[p] EXCEPT !.lo = b[1], !.hi = b[2]],
+\* set_boundary stores the pair it is given (either order, any sign), whatever the mode is at that moment
+Dropped(p, b) == BoundaryGuard = "positive_in_log" /\ setting[p].mode = "log" /\ ~Positive(IMin(b[1], b[2]))
+SetBoundary(p, b) == SetSetting(p, [setting[p] EXCEPT !.lo = b[1], !.hi = b[2],
+                                                      !.slo = IF Dropped(p, b) THEN @ ELSE b[1],
+                                                      !.shi = IF Dropped(p, b) THEN @ ELSE b[2]],
                                 [op |-> "set_boundary", p |-> p, x |-> b])
-\* bounds = (factor0 * value, factor1 * value) with the value read now
-SetFactorBoundary(p, f) == SetSetting(p, [setting[p] EXCEPT !.lo = value[p] + f[1], !.hi = value[p] + f[2]],
+\* bounds = (factor0 * value, factor1 * value) with the value read now (factors and values are positive)
+SetFactorBoundary(p, f) == SetSetting(p, [setting[p] EXCEPT !.lo = value[p] + f[1], !.hi = value[p] + f[2],
+                                                            !.slo = value[p] + f[1], !.shi = value[p] + f[2]],
                                       [op |-> "set_factor_boundary", p |-> p, x |-> f])
 
 \* enable_fit / disable_fit for every parameter: exactly S is fitted afterwards
 Preset(S) ==
         /\ err' = FALSE
         /\ setting' = [p \in PSet |-> [setting[p] EXCEPT !.fit = (p \in S)]]
-        /\ UNCHANGED <<derivedOn, userPrior, priorTab, compiled, compiledDer, value>>
+        /\ UNCHANGED <<derivedOn, userPrior, priorTab, compiled, compiledDer, value, arg>>
         /\ Log([op |-> "preset", on |-> SelectSeq(Params, LAMBDA p : p \in S)])
 PresetCall == \E S \in SUBSET PSet : Preset(S)
 
@@ -168,26 +213,30 @@ SetPrior(p, pr) ==
         /\ err' = FALSE
         /\ userPrior' = [userPrior EXCEPT ![p] = pr]
         /\ priorTab' = IF PriorTable = "persist_all" THEN [priorTab EXCEPT ![p] = pr] ELSE priorTab
-        /\ UNCHANGED <<setting, derivedOn, compiled, compiledDer, value>>
+        /\ UNCHANGED <<setting, derivedOn, compiled, compiledDer, value, arg>>
         /\ Log([op |-> "set_prior", p |-> p, pr |-> pr])
 
 EnableDerived(d) ==
         /\ err' = FALSE
         /\ derivedOn' = [derivedOn EXCEPT ![d] = TRUE]
-        /\ UNCHANGED <<setting, userPrior, priorTab, compiled, compiledDer, value>>
+        /\ UNCHANGED <<setting, userPrior, priorTab, compiled, compiledDer, value, arg>>
         /\ Log([op |-> "enable_derived", p |-> d])
 
 DisableDerived(d) ==
         /\ IF DerivedLookup = "derived" \/ d \in PSet
            THEN derivedOn' = [derivedOn EXCEPT ![d] = FALSE] /\ err' = FALSE
            ELSE derivedOn' = derivedOn /\ err' = TRUE           \* as built: KeyError
-        /\ UNCHANGED <<setting, userPrior, priorTab, compiled, compiledDer, value>>
+        /\ UNCHANGED <<setting, userPrior, priorTab, compiled, compiledDer, value, arg>>
         /\ Log([op |-> "disable_derived", p |-> d])
 
+\* compile_params is defined for the current settings (and for the table the mechanism starts from)
+CompileDefined == /\ DefinedFor(setting, userPrior)
+                  /\ PriorTable = "persist_all" => DefinedFor(setting, priorTab)
 \* (frame conditions first: TLC evaluates the action properties conjunct by conjunct)
 Compile ==
         /\ err' = FALSE
-        /\ UNCHANGED <<setting, derivedOn, userPrior, value>>
+        /\ UNCHANGED <<setting, derivedOn, userPrior, value, arg>>
+        /\ CompileDefined
         /\ LET base == IF PriorTable = "persist_all" THEN priorTab ELSE userPrior
                st   == AsStored(setting)
                tab  == TableFrom(base, st)
@@ -205,12 +254,20 @@ Compile ==
 \* Coincidence class: the number handed over for a log prior (the exponent vec[i]) is numerically the parameter's
 \* current value 10^value[p] (entry 1 for a parameter that is 1, entry 10 for one that is 10): it still has to be
 \* written (the parameter becomes 10^vec[i]).  For a linear prior the entry is the value itself iff vec[i] = value[p].
+Corrupt == 99
 PowTen(e) == CASE e = 0 -> 1 [] e = 1 -> 10 [] e = 2 -> 100 [] OTHER -> -1
 CoincidentLog(vec) == \E i \in 1..Len(compiled) : /\ PMode(compiled[i].prior) = "log"
                                                   /\ vec[i] = PowTen(value[compiled[i].name])
+\* The caller's array.  Entry i is handed over in the space of prior i (entries beyond the fitted set: linear);
+\* update_model only reads it: afterwards it still holds what the caller wrote (sp = sp0).
+HandSp(i) == IF i <= Len(compiled) THEN PMode(compiled[i].prior) ELSE "linear"
+ArgAfter(vec, n) == IF ~TrackArg THEN <<>> ELSE
+    [i \in 1..Len(vec) |-> [sp0 |-> HandSp(i), e |-> vec[i],
+                            sp  |-> IF UpdateArg = "transformed" /\ i <= n THEN "linear" ELSE HandSp(i)]]
 UpdateModel(vec) ==
         /\ err' = FALSE
         /\ Len(vec) = Len(compiled)
+        /\ arg' = ArgAfter(vec, Len(vec))
         /\ value' = [p \in PSet |-> IF \E i \in 1..Len(compiled) : compiled[i].name = p
                                     THEN vec[CHOOSE i \in 1..Len(compiled) : compiled[i].name = p]
                                     ELSE value[p]]
@@ -222,6 +279,7 @@ UpdateModel(vec) ==
 UpdateWrong(vec) ==
         /\ err' = TRUE
         /\ Len(vec) # Len(compiled)
+        /\ arg' = ArgAfter(vec, 0)
         /\ LET n == IF UpdateGuard = "while_writing" THEN IMin(Len(vec), Len(compiled)) ELSE 0 IN
            value' = [p \in PSet |-> IF \E i \in 1..n : compiled[i].name = p
                                     THEN vec[CHOOSE i \in 1..n : compiled[i].name = p]
@@ -229,12 +287,27 @@ UpdateWrong(vec) ==
         /\ UNCHANGED <<setting, derivedOn, userPrior, priorTab, compiled, compiledDer>>
         /\ Log([op |-> "update_model", x |-> vec])
 
+\* update_model(a) with the very array object a of the previous update_model call (a sampler's trace row written in
+\* a second sweep), where the numbers the caller wrote then are still meaningful: same length, same prior spaces.
+\* The fitted parameters become what the caller wrote; an entry that no longer holds it sets something else.
+SameDefined == /\ TrackArg /\ arg # <<>> /\ Len(arg) = Len(compiled)
+               /\ \A i \in 1..Len(arg) : arg[i].sp0 = PMode(compiled[i].prior)
+UpdateSame ==
+        /\ err' = FALSE
+        /\ SameDefined
+        /\ value' = [p \in PSet |-> IF \E i \in 1..Len(compiled) : compiled[i].name = p
+                                    THEN LET i == CHOOSE i \in 1..Len(compiled) : compiled[i].name = p
+                                         IN  IF arg[i].sp = arg[i].sp0 THEN arg[i].e ELSE Corrupt
+                                    ELSE value[p]]
+        /\ arg' = [i \in 1..Len(arg) |-> [arg[i] EXCEPT !.sp = IF UpdateArg = "transformed" THEN "linear" ELSE @]]
+        /\ UNCHANGED <<setting, derivedOn, userPrior, priorTab, compiled, compiledDer>>
+        /\ Log([op |-> "update_same", x |-> [i \in 1..Len(arg) |-> arg[i].e]])
+
 \* update_model(fit_values): the reported values are written back.  A value reported in the space of
 \* its prior returns to the model unchanged; one reported in the other space does not (Corrupt).
-Corrupt == 99
 WriteBack ==
         /\ err' = FALSE
-        /\ UNCHANGED <<setting, derivedOn, userPrior, priorTab, compiled, compiledDer>>
+        /\ UNCHANGED <<setting, derivedOn, userPrior, priorTab, compiled, compiledDer, arg>>
         /\ value' = [p \in PSet |-> IF \E i \in 1..Len(compiled) :
                                           compiled[i].name = p /\ ViewSp(compiled[i]) # PMode(compiled[i].prior)
                                     THEN Corrupt ELSE value[p]]
@@ -243,13 +316,13 @@ WriteBack ==
 \* any call naming an unknown parameter: an error, nothing changes
 Unknown(op, u) ==
         /\ err' = TRUE
-        /\ UNCHANGED <<setting, derivedOn, userPrior, priorTab, compiled, compiledDer, value>>
+        /\ UNCHANGED <<setting, derivedOn, userPrior, priorTab, compiled, compiledDer, value, arg>>
         /\ Log([op |-> op, p |-> u])
 
 \* set_mode with a string that is neither mode: an error, nothing changes
 BadMode(p, w) ==
         /\ err' = TRUE
-        /\ UNCHANGED <<setting, derivedOn, userPrior, priorTab, compiled, compiledDer, value>>
+        /\ UNCHANGED <<setting, derivedOn, userPrior, priorTab, compiled, compiledDer, value, arg>>
         /\ Log([op |-> "set_mode", p |-> p, m |-> w, cs |-> {}])
 
 FitOps == {"enable_fit", "disable_fit", "set_mode", "set_boundary", "set_factor_boundary", "set_prior"}
@@ -268,7 +341,7 @@ SettingCall == \E p \in CallParams :
 PriorCall   == \E p \in CallParams, pr \in UserPriors : SetPrior(p, pr)
 DerivedCall == \E d \in DSet : EnableDerived(d) \/ DisableDerived(d)
 UpdateCall  == \E vec \in Vecs : UpdateModel(vec)
-KnownCall   == SettingCall \/ PriorCall \/ DerivedCall \/ Compile \/ UpdateCall \/ WriteBack
+KnownCall   == SettingCall \/ PriorCall \/ DerivedCall \/ Compile \/ UpdateCall \/ WriteBack \/ UpdateSame
 UnknownCall == UnknownFitCall \/ UnknownDerCall
 UpdateWrongCall == \E vec \in WrongVecs : UpdateWrong(vec)
 BadModeCall == \E p \in CallParams, w \in InvalidModes : BadMode(p, w)
@@ -278,7 +351,8 @@ Next == KnownCall \/ RejectedCall
 Spec == Init /\ [][Next]_vars
 
 \* --------------------------------------------------------------- properties
-TypeOK == /\ \A p \in PSet : setting[p].fit \in BOOLEAN /\ setting[p].mode \in {"linear", "log"} /\ ~setting[p].raw
+TypeOK == /\ \A p \in PSet : /\ setting[p].fit \in BOOLEAN /\ setting[p].mode \in {"linear", "log"} /\ ~setting[p].raw
+                             /\ setting[p].slo = setting[p].lo /\ setting[p].shi = setting[p].hi
           /\ \A d \in DSet : derivedOn[d] \in BOOLEAN
           /\ err \in BOOLEAN
 
@@ -309,12 +383,19 @@ OnlyFittedTouched == [][(value' # value /\ UpdateCall) => \A p \in PSet :
                           (\A i \in 1..Len(compiled) : compiled[i].name # p) => value'[p] = value[p]]_vars
 FittedAreSet == [][(value' # value /\ UpdateCall) => \A i \in 1..Len(compiled) : value'[compiled[i].name] \in K]_vars
 \* only update_model (and a write-back) can change a value
-SettersKeepValues == [][value' # value => (UpdateCall \/ WriteBack)]_vars
+SettersKeepValues == [][value' # value => (UpdateCall \/ WriteBack \/ UpdateSame)]_vars
+\* the array handed to update_model still holds what the caller wrote (after the call and after every later call)
+ArgumentKept == \A i \in 1..Len(arg) : arg[i].sp = arg[i].sp0
+\* writing the same array again sets the fitted parameters to what the caller wrote, and nothing else
+SameArrayTwice == [][UpdateSame => \A p \in PSet :
+                        IF \E i \in 1..Len(compiled) : compiled[i].name = p
+                        THEN value'[p] = arg[CHOOSE i \in 1..Len(compiled) : compiled[i].name = p].e
+                        ELSE value'[p] = value[p]]_vars
 \* unknown names are errors and leave everything as it was; known names never are
 UnknownIsError == [][UnknownCall => err']_vars
 \* so are a vector of the wrong length and a mode that is neither linear nor log
 RejectedIsError == [][RejectedCall => err']_vars
-ErrorsChangeNothing == [][err' => UNCHANGED <<setting, derivedOn, userPrior, priorTab,
-                                              compiled, compiledDer, value>>]_vars
+ErrorsChangeNothing == [][err' => (UNCHANGED <<setting, derivedOn, userPrior, priorTab,
+                                              compiled, compiledDer, value>> /\ ArgumentKept')]_vars
 KnownIsAccepted == [][err' => ~KnownCall]_vars
 =============================================================================
